@@ -1489,6 +1489,10 @@ class quantized_bits(base_quantizer.BaseQuantizer):  # pylint: disable=invalid-n
     assert self.keep_negative
     assert self.alpha is None or self.alpha == 1.0
 
+    if self.bits == 1:
+      # with one (sign) bit the quantizer is binary and emits +1 / -1.
+      return np.array([1.0, -1.0], dtype=np.float32)
+
     x = np.asarray(range(2**self.bits), dtype=np.float32)
     p_and_n = np.where(x >= 2**(self.bits - 1),
                        (x - 2**(self.bits - 1)) - 2**(self.bits - 1), x)
